@@ -103,13 +103,19 @@ static int TryKind_Cmp(var self, var obj) {
   return ((struct TryKind*)self)->id == ((struct TryKind*)obj)->id ? 0 : (guarded == 1 ? 1 : -1);
 }
 var TryKind = Cello(TryKind, Instance(Cmp, TryKind_Cmp));
-#define NK 23
+/* ... and kinds that are plain value objects of a type with NO Cmp instance (matched by the default byte-wise comparison):
+   two of them agree in their first 8 bytes */
+struct PlainKind { int64_t domain, code; };
+var PlainKind = Cello(PlainKind);
+static var PlainK11, PlainK12, PlainK21;
+#define NK 26
+static int kind_sort(int i) { return i < 21 ? 0 : i < 23 ? 1 : 2; }
 static void run_pairs(void) {
   var K[NK] = { TypeError, ValueError, ClassError, IndexOutOfBoundsError, KeyError, OutOfMemoryError, IOError, FormatError, BusyError,
                 ResourceError, ProgramAbortedError, DivisionByZeroError, IllegalInstructionError, ProgramInterruptedError,
-                SegmentationError, ProgramTerminationError, UserErrA, UserErrB, UserErr, IOErrorRetry, IOKind, TryKindA, TryKindB };
+                SegmentationError, ProgramTerminationError, UserErrA, UserErrB, UserErr, IOErrorRetry, IOKind, TryKindA, TryKindB, PlainK11, PlainK12, PlainK21 };
   for (int fi = 0; fi < NK; fi++) for (int ti = 0; ti < NK; ti++) {
-    if ((fi >= 21) != (ti >= 21)) continue;      /* kinds of one sort per program: type objects, or objects of the user type */
+    if (kind_sort(fi) != kind_sort(ti)) continue;      /* kinds of one sort per program: type objects, or objects of the user type */
     volatile int inner = 0, outer = 0, bound = -1, after = 0; volatile long d0 = depth_now();
     try {
       try { throw(K[ti], "pair %i %i", $I(fi), $I(ti)); } catch (e in K[fi]) { inner++; for (int k = 0; k < NK; k++) if (e == K[k]) bound = k; }
@@ -124,6 +130,9 @@ int main(int argc, char** argv) {
   if (argc < 2) { fprintf(stderr, "usage: h_exc script [out]\n"); return 9; }
   UserErrA = new_root(Type, $S("UserErrA"), $I(0)); UserErrB = new_root(Type, $S("UserErrB"), $I(0));
   UserErr = new_root(Type, $S("UserErr"), $I(0)); IOErrorRetry = new_root(Type, $S("IOErrorRetry"), $I(0)); IOKind = new_root(Type, $S("IO"), $I(0));
+  PlainK11 = alloc_root(PlainKind); PlainK12 = alloc_root(PlainKind); PlainK21 = alloc_root(PlainKind);
+  ((struct PlainKind*)PlainK11)->domain = 1; ((struct PlainKind*)PlainK11)->code = 1; ((struct PlainKind*)PlainK12)->domain = 1; ((struct PlainKind*)PlainK12)->code = 2;
+  ((struct PlainKind*)PlainK21)->domain = 2; ((struct PlainKind*)PlainK21)->code = 1;
   TryKindA = new_root(TryKind); ((struct TryKind*)TryKindA)->id = 1; TryKindB = new_root(TryKind); ((struct TryKind*)TryKindB)->id = 2;
   FILE* f = fopen(argv[1], "r"); if (!f) { perror(argv[1]); return 9; }
   if (argc > 2) { ev_fd = open(argv[2], O_WRONLY | O_CREAT | O_TRUNC | O_APPEND, 0644); if (ev_fd < 0) { perror(argv[2]); return 9; } }
